@@ -23,6 +23,7 @@ RX_WEIGHTS = {
     "gpp_h": 3, "gpp_h+r": 4, "gpp1_h": 2, "gpp1_h+r": 4, "gpp_c": 2, "gpp_c+r": 2,
     "lc_h": 4, "lc_h+r": 4, "lc_c": 1, "j3pi_h": 3, "j3pi_h+r": 3, "ksp_h": 2, "ksp_h+r": 2,
     "ppg_h": 2, "ppg_h+r": 2, "ppg_c": 1, "psi4_h": 1, "d3pi_h": 2, "d3pi_h+r": 2,
+    "kkpi_h": 2, "kkpi_h+r": 2, "dkpp_h": 2, "dkpp_h+r": 2, "etac_c": 2, "etac_c+r": 1,
 }
 DYN = ["non_dynamic", "bw", "bw", "bw_ff", "bw_analytic", "bw_swave", "bw_ffonly", "bw_edw", "probeA", "probeB", "non_dynamic_ff"]
 ALIGN = ["none", "axis", "dpd1", "dpd2", "dpd3"]
@@ -46,7 +47,9 @@ def gen_config_op(rng, slot: int, tag: str, dyn=None, sel_range: int = 64) -> di
     elif kind == "stable":
         ids = _final_ids(tag)
         r = rng.random()
-        if r < 0.2:
+        if r < 0.08:
+            op["v"] = [ids[0], ids[0], ids[-1]]  # duplicates: the configuration is a set
+        elif r < 0.2:
             op["v"] = None
         elif r < 0.55:
             op["v"] = ids
@@ -110,6 +113,9 @@ def generate(seed_: int, run: int, reactions: list[str]) -> dict:
                 other = rng.choice([b for b in range(n_builders) if slots[b] == slots[slot]])
                 ops += [{"op": "assign", "b": slot, "sel": sel, "dyn": first}, gen_formulate(rng, slot, False),
                         {"op": "assign", "b": other, "sel": sel, "dyn": second}, gen_formulate(rng, other, False)]
+            elif r < 0.16:
+                # unpickling a model in the middle of a history is one more way to warm caches
+                ops += [{"op": "dump", "b": slot, "file": f"m{slot}.pkl"}, {"op": "load", "file": f"m{slot}.pkl"}]
             elif r < 0.45:
                 ops.append(gen_config_op(rng, slot, slots[slot], dyn, sel_range))
             elif r < 0.92:
